@@ -1,7 +1,7 @@
 (* C01 — property theorems only.  Each is closed by [exact <lemma>] and followed by
    Print Assumptions; non-vacuity Examples at the end. *)
 From V Require Import Common.NumFacts C01.Model C01.Proofs C01.ProofsMulti C01.ProofsMix C01.ProofsOps
-  C01.ProofsTotal C01.ProofsSplit.
+  C01.ProofsTotal C01.ProofsSplit C01.ProofsCopyM.
 
 (* ===== mixing: value =====
    Whatever the receiver (single- or multi-phase), the inlets (any phases, single/multi, the
@@ -123,6 +123,61 @@ Theorem C01_copy_remove : forall st d s st',
 Proof. exact copy_remove_lemma. Qed.
 Print Assumptions C01_copy_remove.
 
+(* ===== copy with removal into a multi-phase receiver (MultiStream.copy_flow) =====
+   Single-phase source, no exclude: whatever the phase selector (none, the source's phase, another
+   phase) and the IDs (all / one / a list), what leaves the source is exactly what the receiver -
+   which is cleared first - holds afterwards; every other stream is untouched. *)
+Theorem C01_multi_copy_remove_single : forall st d s ps i st' o,
+  wf_store st -> d <> s -> nth_error st s = Some (SS o) ->
+  step st (OCopyFlowM d s ps i true false) = Ok st' ->
+  (forall c, tot_at st' c d + tot_at st' c s == tot_at st c s) /\
+  forall k, k <> d -> k <> s -> nth_error st' k = nth_error st k.
+Proof. exact multi_copy_remove_single. Qed.
+Print Assumptions C01_multi_copy_remove_single.
+(* Multi-phase source with as many phases as the receiver, no exclude: the selected cells move, the
+   receiver keeps exactly its content outside the selected cells ([kept_rows]) *)
+Theorem C01_multi_copy_remove_multi : forall st d s ps i st' m o,
+  wf_store st -> d <> s -> nth_error st d = Some (MS m) -> nth_error st s = Some (MS o) ->
+  length (mrows o) = length (mrows m) ->
+  step st (OCopyFlowM d s ps i true false) = Ok st' ->
+  exists idx sel, ids_index (mpkg m) i = Ok idx /\ phase_sel (mphases m) ps = Ok sel /\
+  forall c, tot_at st' c d + tot_at st' c s == tot_at st c s + rows_tot (mpkg m) (kept_rows sel idx (mrows m)) c.
+Proof. exact multi_copy_remove_multi. Qed.
+Print Assumptions C01_multi_copy_remove_multi.
+
+(* The statement for every source and option: an empty multi-phase receiver plus the source hold
+   afterwards what the source held.  The faithful model REFUTES it: rows are matched by position, so a
+   source with more phases than the receiver loses the unmatched rows (witness below); exclude with
+   IDs=... empties the source; exclude with a selector that is not the single-phase source's phase copies
+   without removing.  These are findings about the unchanged tree (see props/C01.py WITNESSES). *)
+Definition C01_multi_copy_remove_statement : Prop :=
+  forall st d s ps i ex st' m, wf_store st -> d <> s -> nth_error st d = Some (MS m) ->
+  isempty (MS m) = true -> step st (OCopyFlowM d s ps i true ex) = Ok st' ->
+  forall c, tot_at st' c d + tot_at st' c s == tot_at st c s.
+Definition wP := mkpkg 1 [2; 0; 1]%nat.
+Definition wStore : store :=
+  [ MS (mkm wP [Pg; Pl] [[0; 0; 0]; [0; 0; 0]]);
+    MS (mkm wP [Pg; Pl; Ps] [[1; 0; 0]; [0; 2; 0]; [0; 0; 4]]) ].
+Definition wStore' : store :=
+  match step wStore (OCopyFlowM 0 1 PhAll IdAll true false) with Ok x => x | Err _ => [] end.
+Lemma wStore_wf : wf_store wStore.
+Proof.
+  split.
+  - intros s [H|[H|[]]]; subst; unfold wf_stream, wf_pkg; simpl;
+      (split; [repeat constructor; simpl; intuition lia|]);
+      (split; [intros r0 R; repeat (destruct R as [R|R]; [subst; reflexivity|]); destruct R|]);
+      (split; [reflexivity | repeat split; repeat constructor; simpl; lia]).
+  - intros a b [A|[A|[]]] [B|[B|[]]]; subst; unfold coherent; simpl; intros E; reflexivity.
+Qed.
+Theorem C01_multi_copy_remove_refuted : ~ C01_multi_copy_remove_statement.
+Proof.
+  intros H.
+  assert (step wStore (OCopyFlowM 0 1 PhAll IdAll true false) = Ok wStore') as E by (vm_compute; reflexivity).
+  specialize (H wStore 0%nat 1%nat PhAll IdAll false wStore' _ wStore_wf (fun X => O_S _ X) eq_refl eq_refl E 1%nat).
+  vm_compute in H. discriminate.
+Qed.
+Print Assumptions C01_multi_copy_remove_refuted.
+
 (* ===== scaling ===== *)
 Theorem C01_scale_value : forall k s c, tot (scale k s) c == k * tot s c.
 Proof. exact scale_value_lemma. Qed.
@@ -188,6 +243,12 @@ Proof. eexists; eexists. split; vm_compute; reflexivity. Qed.
 Example C01_nonvacuous_copy_remove : exists st',
   step exStore (OCopyFlow 0 2 IdAll true false) = Ok st'.
 Proof. eexists. vm_compute. reflexivity. Qed.
+(* a phase selector that is not the source's phase: nothing moves, nothing is removed *)
+Example C01_nonvacuous_multi_copy_remove : exists st1 st2,
+  step exStore (OCopyFlowM 2 1 (PhOne Pl) (IdList [0; 2]%nat) true false) = Ok st1 /\
+  nth_error st1 1 = nth_error exStore 1 /\
+  step (exStore ++ [MS (mkm exP1 [Pg; Ps] [[1; 1; 1]; [2; 0; 2]])]) (OCopyFlowM 2 3 PhAll (IdOne 0) true false) = Ok st2.
+Proof. eexists; eexists. split; [|split]; vm_compute; reflexivity. Qed.
 Example C01_nonvacuous_split :
   match split_to (MS (mkm exP1 [Pg; Pl] [[0; 1; 0]; [8; 0; 3]])) (SS (mkc exP0 Pl [1; 2; 0; 0]))
           (SS (mkc exP1 Ps [0; 0; 0])) (SpV [1 # 2; 1 # 4; 1]) true with
